@@ -171,18 +171,21 @@ Fixpoint ges (a : list Q) (i n : nat) : list qquat :=
 Definition case_following (a : list Q) : list Q :=
   ov (follow_rec Qo (ges a 11 (code a 4)) (g a 3) (gv a 0)) ++ oq (ge a 5).
 
-(* kind 11 — on <Object>: invariants of the placement, from the stored poses.
+(* kind 11 — on <Object>: invariants of the placement, from the stored poses.  The surface used is any face of X
+   whose outward normal has a global z component >= 1/2 (defaultSideSurface); the harness names the face.
    in : 0 X pose (15) | 15 X dims (3) | 18 X q as stored (4) | 22 new position as stored (3)
-        | 25 new q as stored (4) | 29 new dims (3)
-   out: X q (4) | gap along X's up axis between the corner sets (1) | new centre in X's frame (3)
-        | up axis of the new object minus up axis of X (3) *)
+        | 25 new q as stored (4) | 29 new dims (3) | 32 face of X (direction code, as for kind 1)
+   out: X q (4) | gap along the face's outward normal between the corner sets (1) | new centre in X's frame (3)
+        | up axis of the new object minus the face normal (3) | the face normal (3) *)
 Definition case_on_object (a : list Q) : list Q :=
   let '(xpos, _, xq) := gpose a 0 in
   let xq' : qquat := (g a 18, g a 19, g a 20, g a 21) in
   let np := gv a 22 in let nq : qquat := (g a 25, g a 26, g a 27, g a 28) in
+  let d := dir_of (code a 32) in
   let cx := corners Qo xpos xq' (gv a 15) in let cn := corners Qo np nq (gv a 29) in
-  oq xq ++ [gap_along Qo xpos xq' DAbove cx cn] ++ ov (to_local Qo xpos xq' np)
-  ++ ov (vsub Qo (rotate Qo nq (ez Qo)) (rotate Qo xq' (ez Qo))).
+  let nrm := rotate Qo xq' (dir_axis Qo d) in
+  oq xq ++ [gap_along Qo xpos xq' d cx cn] ++ ov (to_local Qo xpos xq' np)
+  ++ ov (vsub Qo (rotate Qo nq (ez Qo)) nrm) ++ ov nrm.
 
 (* kind 12 — on <vector> / on <oriented region> / in <oriented region>.
    in : 0 surface point (3) | 3 surface orientation (6) | 9 contactTolerance | 10 baseOffset (3)
